@@ -2,7 +2,7 @@
 Model: lean/Witverif/Text/Source.lean (+ Rust str primitives lean/Witverif/Text/RustStr.lean),
 theorems: lean/Witverif/Props/C25.lean, tie: `text-run source` vs `m_source` (exact traces),
 glue tie: `text-run ruststr` vs `m_source str` (Rust std string functions vs RustStr),
-spec monitors: SourceSpec.monitor / literalRegionOk evaluated by m_source on the implementation's outputs."""
+spec monitors: SourceSpec.monitor / literalPairOk evaluated by m_source on the implementation's outputs."""
 import os, json
 from vlib import run_lines, VERIF
 
@@ -331,47 +331,25 @@ def run(c):
     for (idx, ts, lits), nr, na in zip(jobs, neu_reqs, nout):
         a_ans = effs[idx][1].split(" ") if effs[idx][1] else []
         b_ans = na.split(" ") if na else []
-        # top-level op index of each literal token
-        depth, top_of = 0, {}
-        kth = 0
-        for i, t in enumerate(ts):
-            if t == "[": depth += 1
-            elif t == "]":
-                depth -= 1
-                if depth == 0: kth += 1
-            elif depth == 0:
-                top_of[i] = kth; kth += 1
-        litops = {top_of[i] for i in lits}
-        bad = None
-        if len(a_ans) != len(b_ans): bad = "different number of answers"
-        else:
-            mask, prev, prevb = [], None, None
-            for k, (x, y) in enumerate(zip(a_ans, b_ans)):
-                if (x == "P") != (y == "P"): bad = f"panic differs at op {k}"; break
-                if x == "P": break
-                fx, fy = x.split(":"), y.split(":")
-                if fx[0] != fy[0]: bad = f"indentation differs at op {k}"; break
-                cur = unhx(fx[1])
-                cpl, pv = 0, prev or ""
-                while cpl < len(pv) and cpl < len(cur) and pv[cpl] == cur[cpl]: cpl += 1
-                mask = mask[:cpl] + [k in litops] * (len(cur) - cpl)
-                prev, prevb = cur, unhx(fy[1])
-            if bad is None and prev is not None:
-                lit_lines.append("lit\t" + hx(prev) + "\t" + hx(prevb) + "\t" + "".join("0" if mk else "1" for mk in mask))
-                lit_meta.append((idx, nr))
-        if bad:
+        if len(a_ans) != len(b_ans):
             per_class["source-literal-influence"] = per_class.get("source-literal-influence", 0) + 1
             c.spec_violation("source-literal-influence", WHAT["source-literal-influence"],
-                             {"request": effs[idx][0], "neutralised_request": nr, "why": bad,
-                              "impl": effs[idx][1], "impl_neutralised": na})
+                             {"request": effs[idx][0], "decoded": decode(effs[idx][0]), "neutralised_request": nr,
+                              "why": "different number of answers", "impl": effs[idx][1], "impl_neutralised": na})
+            continue
+        for k, (x, y) in enumerate(zip(a_ans, b_ans)):
+            lit_lines.append("lit\t" + ":".join(x.split(":")[:2]) + "\t" + ":".join(y.split(":")[:2]))
+            lit_meta.append((idx, nr, k, na))
     lout = run_lines([model], lit_lines, timeout=300)
-    for (idx, nr), l, v in zip(lit_meta, lit_lines, lout):
+    for (idx, nr, k, na), l, v in zip(lit_meta, lit_lines, lout):
         c.evaluations += 1
         if v != "ok":
             per_class["source-literal-influence"] = per_class.get("source-literal-influence", 0) + 1
-            c.spec_violation("source-literal-influence", WHAT["source-literal-influence"],
-                             {"request": effs[idx][0], "neutralised_request": nr, "lit_request": l, "verdict": v})
-    stats["literal_metamorphic_pairs"] = len(lit_lines)
+            if per_class["source-literal-influence"] <= 3:
+                c.spec_violation("source-literal-influence", WHAT["source-literal-influence"],
+                                 {"request": effs[idx][0], "decoded": decode(effs[idx][0]), "neutralised_request": nr,
+                                  "failing_op_index": k, "impl": effs[idx][1], "impl_neutralised": na, "verdict": v})
+    stats["literal_metamorphic_histories"] = len(jobs); stats["literal_metamorphic_observation_pairs"] = len(lit_lines)
     c.cov["histories"] = stats
     c.cov["corpus_cases"] = ncorpus
     for j in range(min(3, len(keep))):
@@ -379,7 +357,7 @@ def run(c):
                   "verdicts": mout[j].split("\t")[1] if "\t" in mout[j] else mout[j]})
     c.cov["search"] = ("SourceSpec.monitor (content / level / line-indent / literal / balanced / api monitors, Lean, spec side) "
                        "evaluated on the implementation's observed buffer and probed level after every top-level operation, "
-                       "plus the metamorphic literal monitor SourceSpec.literalRegionOk on pairs of implementation runs")
+                       "plus the metamorphic literal monitor SourceSpec.literalPairOk on pairs of implementation runs")
     c.assumptions += [
         "usize indentation modelled as Nat (no wrap of += after 2^64)",
         "Source::as_mut_string (raw mutable access to the buffer) is outside the model and the property",
